@@ -23,6 +23,13 @@ Theorem C19_one_to_one_ : forall p c p' c' k, c < 256 -> c' < 256 -> wf w p c = 
   last_out I (make_seq w p' c') = Ret (Ok (Some (KeyEvent_mk k KeyState_Down))) ->
   p = p' /\ c = c'.
 Proof. exact (C19_one_to_one I w noclash). Qed.
+Lemma at_home : homeless_C19 I w = []. Proof. vm_compute. reflexivity. Qed.
+Theorem C19_in_any_history : forall s0, sc_init I = Ret s0 -> forall qs, Forall (cseq_ok w) qs ->
+  exists oss : list (list sc_result),
+    run (scan_machine I) s0 (flat_map (cseq_bytes w) qs) = Ret (s0, List.concat oss) /\
+    Forall2 (fun q os => run (scan_machine I) s0 (cseq_bytes w q) = Ret (s0, os)) qs oss.
+Proof. intros s0 Hi. exact (C19_history_sound I w s0 Hi at_home). Qed.
+Print Assumptions C19_in_any_history.
 Print Assumptions C19_make_break_.
 Print Assumptions C19_break_make_.
 Print Assumptions C19_one_to_one_.
